@@ -1,4 +1,3 @@
-from functools import partial
 from inspect import BoundArguments
 from inspect import Parameter
 from inspect import Signature
@@ -6,27 +5,43 @@ from inspect import iscoroutinefunction
 from itertools import chain
 from types import MethodType
 from typing import Any
+from weakref import WeakKeyDictionary
 
 
 def _make_key(method):
-    method = method.func if isinstance(method, partial) else method
+    """The object whose identity determines the signature, and whether it is seen as a bound method.
+
+    Names are not unique (two classes may reuse the same class, method and variable names with
+    different parameter kinds, or one may be a coroutine function) and neither are code objects
+    (every function wrapped by the same decorator shares the wrapper's code), so the callable
+    itself is the key: the function behind a bound method (shared by all instances), a property
+    getter, or the callable as given (a plain function, a ``functools.partial``...).
+    """
     method = method.fget if isinstance(method, property) else method
-    # The code object identifies the function itself: names are not unique (two classes may
-    # reuse the same class, method and variable names with different parameter kinds, or one
-    # may be a coroutine function). Bound methods and plain functions have distinct signatures.
-    return (method.__code__, isinstance(method, MethodType))
+    if isinstance(method, MethodType):
+        return method.__func__, True
+    return method, False
 
 
 def signature_cache(user_function):
-    cache = {}
-    cache_get = cache.get
+    # Weak keys: an entry lives as long as the callable it describes, so the cache neither keeps
+    # dynamically created callables alive nor serves a stale entry to a new object that happens to
+    # reuse the address of a collected one.
+    cache: "WeakKeyDictionary[Any, dict]" = WeakKeyDictionary()
 
     def cached_function(cls, method):
-        key = _make_key(method)
-        sig = cache_get(key)
+        owner, bound = _make_key(method)
+        try:
+            entry = cache.get(owner)
+            if entry is None:
+                entry = cache[owner] = {}
+        except TypeError:
+            # Not hashable or not weak-referenceable: nothing to cache on.
+            return user_function(cls, method)
+
+        sig = entry.get(bound)
         if sig is None:
-            sig = user_function(cls, method)
-            cache[key] = sig
+            sig = entry[bound] = user_function(cls, method)
 
         return sig
 
